@@ -41,6 +41,7 @@ func spec_pbWF(b *precommitBuffer) bool {
 //@   ensures others: forall(k, 0, len(b.buf), (old(b.full) || k != b.wpos) ==> b.buf[k] == old(b.buf[k]) && b.buf[k].txID == old(b.buf[k].txID) && b.buf[k].alh == old(b.buf[k].alh) && b.buf[k].txOff == old(b.buf[k].txOff) && b.buf[k].txSize == old(b.buf[k].txSize))
 //@   ensures c07_buf: b.buf == old(b.buf)
 //@   assigns b, b.buf[(b.wpos + 1) % len(b.buf)]
+//@   inline
 
 //@ func (*precommitBuffer).readAhead
 //@   divmod abstract
